@@ -30,18 +30,18 @@ namespace vf {
 enum SetFeat {
   SF_BULK_DUP = 0, SF_MERGE, SF_HINT, SF_NODE_REINSERT, SF_ERASE_RANGE, SF_VEC_HANDOVER, SF_LOOKUP_PRESENT, SF_LOOKUP_ABSENT,
   SF_NODE_DUP, SF_MERGE_DIFF_STATE, SF_BIG_RANGE, SF_HETERO, SF_RELOCATE, SF_RELOC_THEN_MUT, SF_SIBLING_MERGE, SF_SWAP_STATE,
-  SF_CROSS_N, SF_MIXED_STATE_OP, SF_LARGE_STATE, SF_STATE_CHANGE_IN_CALL, SF_ERASE_LOOP, SF_DRAIN_REFILL, SF_NFEAT
+  SF_CROSS_N, SF_MIXED_STATE_OP, SF_LARGE_STATE, SF_STATE_CHANGE_IN_CALL, SF_ERASE_LOOP, SF_DRAIN_REFILL, SF_FAULT, SF_NFEAT
 };
 inline const char *set_feat_name(int i) {
   static const char *n[] = {"bulk_insert_with_duplicates", "merge", "hinted_insert", "node_reinsert", "erase_range", "vector_handover",
                             "lookup_present", "lookup_absent", "node_insert_meets_duplicate", "merge_different_comparator_state",
                             "range_longer_than_16", "heterogeneous_lookup", "memcpy_relocation", "relocate_then_3_mutations",
                             "sibling_comparator_merge", "swap_or_assign_between_comparator_states", "crosses_N_boundary",
-                            "op_between_inline_and_large_sets", "large_state", "state_change_inside_call", "erase_loop", "drain_and_refill"};
+                            "op_between_inline_and_large_sets", "large_state", "state_change_inside_call", "erase_loop", "drain_and_refill", "fault_injected_and_survived"};
   return (i >= 0 && i < SF_NFEAT) ? n[i] : 0;
 }
 
-static const int kFlatSetNumOps = 31;
+static const int kFlatSetNumOps = 32;
 
 template <class VecType>
 struct SetVecTraits {
@@ -292,6 +292,7 @@ class FlatSetInterp {
       case 14: return HASF(SF_RELOCATE) && HASF(SF_RELOC_THEN_MUT);
       case 6: return ctx().case_mut_ops >= 5 && (HASF(SF_VEC_HANDOVER) || HASF(SF_BIG_RANGE));
       case 2: return ctx().case_mut_ops >= 5 && special;
+      case 9: return ctx().case_mut_ops >= 3 && HASF(SF_FAULT);
       default: return base;
     }
 #undef HASF
